@@ -56,6 +56,14 @@ def scenarios(tier):
     for be in (("mem", "fs+cache-one") if tier != "thorough" else ("mem", "fs", "fs+cache-all", "fs+cache-one")):
         out.append(("%s|cold|none-result" % be, be, "cold", [[("gnone", 1)], [("gnone", 1)]]))
         out.append(("%s|cold|ignore-result" % be, be, "cold", [[("g!ignore", 1)], [("g!ignore", 1)]]))
+    # call trees that cross (ping(1) -> pong(0) against pong(1) -> ping(0)): the per-call locks must not be taken in a cycle
+    out.append(("mem|cold|crossing-trees", "mem", "cold", [[("ping", 1)], [("pong", 1)]]))
+    # different calls with byte-identical results / under one key override: afterwards a fresh backend serves them all
+    out.append(("fs|cold|equal-results+readback", "fs", "cold", [[("same", 1)], [("same", 2)]]))
+    out.append(("fs|cold|shared-override+readback", "fs", "cold", [[("ko", 1)], [("ko", 2)]]))
+    if tier == "thorough":
+        out.append(("fs+cache-one|cold|crossing-trees", "fs+cache-one", "cold", [[("ping", 1)], [("pong", 1)]]))
+        out.append(("fs+cache-one|cold|equal-results+readback", "fs+cache-one", "cold", [[("same", 1)], [("same", 2)]]))
     # three callers of a call whose first attempt ends un-memoized (the waiting threads take over one after the other)
     out.append(("mem|cold|flaky-3threads", "mem", "cold", [[("flaky", 1)], [("flaky", 1)], [("flaky", 1)]]))
     if tier == "thorough":
@@ -389,7 +397,7 @@ def run_once(scn, prefix, opcodes=False, gran="full", prov=False):
         elif (summ["resident"], summ["usage"]) not in sequential_outcomes(scn):
             bad = ("cache-not-sequential", "final cache %s / usage %s is not what any sequential order leaves (%s)"
                    % (summ["resident"], summ["usage"], sequential_outcomes(scn)))
-    if bad is None and prov:
+    if bad is None and prov is True:
         bad = provenance(calls)
     if bad is None and prov == "ctx":
         bad = context_oracle(calls)
@@ -469,10 +477,13 @@ def run(ctx):
     tasks = []
     per = {}
     for scn in scns:
-        trace, token, bad, npoints = run_once(scn, ())
+        trace, token, bad, npoints = run_once(scn, (), prov="readback" if "+readback" in scn[0] else False)
+        if bad:
+            ctx.violation("%s|%s|preemptions=0" % (scn[0], bad[0]), bad[1] + "\nscenario=%s default schedule" % scn[0],
+                          {"scenario": scn[0], "calls": scn[3], "choices": [], "opcodes": False, "gran": "full", "prov": "readback" if "+readback" in scn[0] else False})
         per[scn[0]] = {"points_default_schedule": npoints, "choice_points": len(trace)}
         b = 1 if (len(scn[3]) > 2 or any(len(c) > 1 for c in scn[3])) and thorough else bound
-        tasks.append((scn, (), b, {"cap": CAP}))  # from the default schedule (bound 0) upwards
+        tasks.append((scn, (), b, {"cap": CAP, "prov": "readback" if "+readback" in scn[0] else False}))  # from the default schedule (bound 0) upwards
     # bound 2 at runner granularity for the cold-store scenarios (single-flight protocol)
     for scn in scns:
         if scn[2] == "cold" and len(scn[3]) == 2 and "nested" not in scn[0] and (thorough or scn[0] == "fs+cache-one|cold|same"):
